@@ -625,8 +625,44 @@ let sm_leg traits run (alts, i0, has_c, elts, mask) steps =
   in
   join (head @ body @ ("fin" :: "ev" :: List.map sm_ev_s fin))
 
+(* ------------------------------------------------------------------ value_or with a fallback of another type
+   vor.<T><U> <engaged> <held> <fallback>; a floating value travels as twice its value.  Per wrapper (optional,
+   expected): 12 results (4 value categories of the object x 3 of the fallback: one function of the inputs for these
+   scalar types), then has_value() and the held value *)
+let vo_ty = function
+  | 'b' -> Some SBool | 'c' -> Some SChar | 's' -> Some SShort | 'i' -> Some SInt | 'u' -> Some SUInt
+  | 'l' -> Some SLong | 'f' -> Some SFloat | 'd' -> Some SDouble | _ -> None
+
+let vo_cfg op =
+  if String.length op = 6 && String.sub op 0 4 = "vor." then
+    match (vo_ty op.[4], vo_ty op.[5]) with
+    | Some t, Some u when op.[4] <> 'b' && op.[4] <> 'c' -> Some (t, u)
+    | _ -> None
+  else None
+
+let vo_leg value engaged held =
+  match value with
+  | Ok r ->
+      let one = List.init 12 (fun _ -> si r) @ [ b2s engaged; (if engaged then si held else "0") ] in
+      join (("ok" :: one) @ one)
+  | UB _ -> "ub"
+  | Contract -> "contract"
+  | OutOfFuel -> "outoffuel"
+
 let run_case op tk =
   match List.assoc_opt op sets with
+  | None when vo_cfg op <> None ->
+      let tT, tU = Option.get (vo_cfg op) in
+      let engaged = next_int tk <> 0 in
+      let held = next_z tk in
+      let fb = next_z tk in
+      let m = vo_leg (vo_value_or tT tU engaged held fb) engaged held in
+      let sp =
+        match svo_value_or tT tU (if engaged then Some held else None) fb with
+        | Ok _ as r -> vo_leg r engaged held
+        | _ -> "na"
+      in
+      (m, sp)
   | Some alts ->
       let steps = read_steps tk in
       (guard (fun () -> var_model alts steps), guard (fun () -> var_spec alts steps))
